@@ -280,4 +280,45 @@ inline std::vector<int> compiled_families()
     return v;
 }
 
+// Prelude of a worker's sequence (VF_PRELUDE=1, not in a run of one case alone): every sparse solver family of this build first solves a problem that is
+// thousands of times larger than the cases that follow. Anything a solver remembers outside its own object - a function-local static initialised from the
+// first instance's size, a cache - then differs between the sequence and the run alone.
+template <class T>
+inline void run_prelude()
+{
+    if (!getenv("VF_PRELUDE")) return;
+    const int n = 60000;
+    using SpT = Eigen::SparseMatrix<T>;
+    std::vector<Eigen::Triplet<T>> ta, tb, tg;
+    for (int i = 0; i < n; i++)
+    {
+        ta.emplace_back(i, i, T(2.0 + 0.5 * std::sin(0.37 * i)));
+        tb.emplace_back(i, i, T(1.5));
+        tg.emplace_back(i, i, T(1.0 + 0.3 * std::cos(0.11 * i)));
+        if (i + 1 < n) { ta.emplace_back(i, i + 1, T(-1)); ta.emplace_back(i + 1, i, T(-1)); tb.emplace_back(i, i + 1, T(0.25)); tb.emplace_back(i + 1, i, T(0.25)); tg.emplace_back(i, i + 1, T(0.7)); tg.emplace_back(i + 1, i, T(-0.4)); }
+    }
+    SpT As(n, n), Bs(n, n), Gs(n, n);
+    As.setFromTriplets(ta.begin(), ta.end()); Bs.setFromTriplets(tb.begin(), tb.end()); Gs.setFromTriplets(tg.begin(), tg.end());
+    for (int f : compiled_families())
+    {
+        if (!(f == 1 || f == 4 || f == 6 || f == 8 || f == 10 || f == 12 || f == 13 || f == 14)) continue;   // the families whose operators are sparse throughout
+        Data<T> d;
+        d.family = f; d.n = n; d.nev = 2; d.ncv = 8; d.classname = "prelude";
+        d.As = family_is_gen(f) ? Gs : As;
+        d.Bs = Bs;
+        d.sigma = T(0.123); d.sigmai = T(0.5);
+        try
+        {
+            with_family<T>(d, [&](auto fac) {
+                auto ops = fac.make_ops();
+                auto es = fac.make_solver(*ops);
+                es->init();
+                (void) es->compute(fac.select_rules()[0], 3, T(1e-6), fac.sort_rules()[0]);
+            });
+        }
+        catch (const std::exception&) {}
+    }
+}
+
+
 }  // namespace vz
